@@ -308,7 +308,7 @@ def who_may_panic(ctx, config, w, crate):
 
 def unwrap_discharge(ctx, config, w):
     U = w.U
-    outs, b, ev = G.summarize(U, G.HRU + "_fit", set())
+    outs, b, ev = G.summarize(U, G.HRU + "_fit", {"*"})
 
     def unwraps(t, acc):
         if isinstance(t, tuple):
@@ -367,7 +367,7 @@ def decimal_range(ctx, config, w):
     amt = ws.amount_type(config)
     stats = {"impls": 0, "pairs": 0, "vacuous": 0, "nodes": 0}
     a_, b_ = S.P(0, "self"), S.P(1, "rhs")
-    fit_outs, fit_b, _ = G.summarize(U_, G.HRU + "_fit", set())
+    fit_outs, fit_b, _ = G.summarize(U_, G.HRU + "_fit", {"*"})
 
     def qt(key):
         return w.by_path.get(key)
@@ -397,7 +397,7 @@ def decimal_range(ctx, config, w):
                     continue
                 imp = found[0][4]
                 body = U_.item_body(imp, opforms.OPFN[o])
-                ev = T.Evaluator(U_, keep_tags=True)
+                ev = T.Evaluator(U_, keep_tags=True, inline={"*"}, stop=G.STOP)
                 try:
                     outs = [(g, k, T.canon(t)) for g, k, t in ev.summarize(body)]
                 except T.Unsupported as x:
@@ -467,9 +467,9 @@ def decimal_range(ctx, config, w):
                         t = sel[0][1]
 
                         def leaf(x, sa=sa, sb=sb):
-                            if x == am_a:
+                            if x == am_a or (X == amt and x == a_):     # (the dimensionless operand is its own amount)
                                 return "a"
-                            if x == am_b:
+                            if x == am_b or (Y == amt and x == b_):
                                 return "b"
                             if x == sa_t:
                                 return sa
@@ -656,6 +656,38 @@ def decimal_range_rate(ctx, config, w):
     return px.n
 
 
+def fmt_error_origin(ctx, config, w):
+    """`to_string()` / `format!` panic ("a formatting trait implementation returned an error") when a Display impl
+    returns an error the Formatter did not produce.  The library's formatting code only ever passes on the
+    Formatter's own results; so: no body of the library crates constructs a `core::fmt::Error` value (expected
+    count zero — who-may-construct rule; the scanner's shape is self-tested on a constructed node)."""
+    def constructions(e, acc):
+        if isinstance(e, dict):
+            if e.get("k") == "adt" and e.get("path") == "core::fmt::Error" and "fields" in e:
+                acc.append(e.get("sp"))
+            for v in e.values():
+                constructions(v, acc)
+        elif isinstance(e, list):
+            for v in e:
+                constructions(v, acc)
+        return acc
+    probe = {"k": "block", "stmts": [], "expr": {"k": "adt", "path": "core::result::Result", "variant": "Err", "fields": [
+        {"name": "0", "e": {"k": "adt", "path": "core::fmt::Error", "variant": "Error", "fields": [], "sp": "probe"}}]}}
+    ctx.ob("positive-control", "fmt-error-scanner", constructions(probe, []) == ["probe"], "the scanner does not recognise a constructed fmt::Error")
+    n = 0
+    for crate in w.crates:
+        if crate.is_test:
+            continue
+        for d, body in sorted(crate.bodies.items()):
+            n += 1
+            for sp in constructions(body.get("value"), []):
+                ctx.fail("fmt-error-origin", "%s/%s/%s" % (config, crate.name, d),
+                         "%s constructs a core::fmt::Error: a Display impl returning an error that the Formatter did not produce makes "
+                         "to_string() / format! panic" % d, sp or body.get("span"))
+    ctx.ob("fmt-error-origin", config, True, "")
+    return n
+
+
 def run(ctx):
     total_bodies = 0
     for config in ("f64-all", "dec-all"):
@@ -678,6 +710,8 @@ def run(ctx):
                         continue
                     ctx.ob("documented-panic-present", "%s/%s" % (config, k[0]), k in exp, "expected site %s not found (inventory incomplete?)" % (k,), None, nontrivial=False)
             n = who_may_panic(ctx, config, w, crate)
+        nfe = fmt_error_origin(ctx, config, w)
+        ctx.floor("%s: library bodies scanned for constructed fmt::Error values" % config, nfe, 1050 if config == "dec-all" else 950)
         n = unwrap_discharge(ctx, config, w)
         ctx.floor("%s: unwrap discharge evaluations" % config, n, 250)
         if amt != "f64":
